@@ -2,6 +2,8 @@
 # usage: rmwt.sh <name>   -> remove scratch worktree and its build output
 for n in "$@"; do
   git -C /repo worktree remove --force /tmp/wt/$n 2>/dev/null || rm -rf /tmp/wt/$n
-  rm -rf /tmp/wt/$n /tmp/wt/$n-out
+  rm -rf /tmp/wt/$n
+  # deliverables are kept until explicitly archived: move, do not delete
+  if [ -d /tmp/wt/$n-out ]; then mkdir -p /tmp/wt/_done && rm -rf /tmp/wt/_done/$n-out && mv /tmp/wt/$n-out /tmp/wt/_done/$n-out; fi
 done
 git -C /repo worktree prune
